@@ -852,11 +852,39 @@ def q_same(a, b):
         return False
 
 
+ARG_POOL = {"f": np.array([1.0e8, 3.0e8, 7.5e8]), "z": -150.0}
+
+
+def method_accessors(obj):
+    """every public method of the object's class whose required parameters can all be supplied from ARG_POOL:
+    called with the SAME arguments before and after attribute assignments, it is a derived quantity like any other"""
+    import inspect
+    out = []
+    for name in sorted(dir(type(obj))):
+        if name.startswith("_"):
+            continue
+        fn = getattr(type(obj), name, None)
+        if not inspect.isfunction(fn):
+            continue
+        try:
+            req = [p.name for p in list(inspect.signature(fn).parameters.values())[1:]
+                   if p.default is inspect.Parameter.empty and p.kind in (p.POSITIONAL_ONLY, p.POSITIONAL_OR_KEYWORD)]
+        except (TypeError, ValueError):
+            continue
+        if req and all(r in ARG_POOL for r in req):
+            out.append("call:%s:%s" % (name, ",".join(req)))
+    return out
+
+
 def q_read(obj, names):
     out = {}
     for nm in names:
         try:
-            v = getattr(obj, nm)
+            if nm.startswith("call:"):
+                _, meth, req = nm.split(":")
+                v = getattr(obj, meth)(*[ARG_POOL[r] for r in req.split(",")])
+            else:
+                v = getattr(obj, nm)
         except Exception as e:
             v = "EXC:" + type(e).__name__
         if nm == "solutions" and not isinstance(v, str):
@@ -946,7 +974,7 @@ class SharedTracerHistory:
             if not tr or self.kind == "BasicRayTracer" or not self.take_path(r.choice(tr)):
                 return False
         elif k == "read":
-            q_read(obj, r.sample(self.names(kind), r.randint(1, 3)))
+            q_read(obj, r.sample(self.names(kind, obj), r.randint(1, 3)))
             self.log.append(["read", i])
         elif k == "aug":
             a = r.choice(["from_point", "to_point"])
@@ -995,11 +1023,14 @@ class SharedTracerHistory:
         # fill caches of a random subset so that later staleness is observable
         for l in self.live:
             if r.random() < 0.6:
-                q_read(l[0], self.names(l[2]))
+                q_read(l[0], self.names(l[2], l[0]))
         return True
 
-    def names(self, kind):
-        return self.P_NAMES if kind == "path" else self.T_NAMES[self.kind]
+    def names(self, kind, obj=None):
+        base = self.P_NAMES if kind == "path" else self.T_NAMES[self.kind]
+        if obj is not None and type(obj).__name__ != "BasicRayTracePath":
+            return base + method_accessors(obj)      # methods with (repeated) arguments are accessors too
+        return base
 
     def fresh(self, kind, d, obj):
         if kind == "tracer":
@@ -1016,7 +1047,7 @@ class SharedTracerHistory:
     def check(self):
         for i, entry in enumerate(self.live):
             obj, sh, kind = entry[:3]
-            names = [nm for nm in self.names(kind) if not (nm == "solutions" and id(obj) in self.tainted)]
+            names = [nm for nm in self.names(kind, obj) if not (nm == "solutions" and id(obj) in self.tainted)]
             cur = {k: getattr(obj, k) for k in sh}
             for k in sh:
                 ok = np.array_equal(cur[k], sh[k]) if isinstance(sh[k], np.ndarray) else (cur[k] is sh[k] or cur[k] == sh[k])
@@ -1243,6 +1274,10 @@ def run(ctx):
         ctx.oblige("gen:lazy_table", False, str(e)[-1200:])
     pin_changed = bool(data) and data["core_hash"] != CORE_PIN
     if data:
+        memos = {c: v["memo_attrs"] for c, v in data["classes"].items() if v.get("memo_attrs")}
+        ctx.extra["memo_attrs"] = memos
+        ctx.oblige("gen:no-hidden-memo-attributes", not memos,
+                   "methods store results in attributes that are neither static nor _lazy_* (never dropped by _clear_cache): %s" % memos)
         ctx.extra["private_nonstatic_reads"] = {c: v["private_nonstatic_reads"] for c, v in data["classes"].items()
                                                 if v.get("private_nonstatic_reads")}
     ctx.extra["core_pin"] = {"expected": CORE_PIN, "found": data["core_hash"] if data else None, "changed": pin_changed}
